@@ -74,6 +74,19 @@ var exprSites = []exprSite{
 	// buffered amount release
 	{"release_underflows", "Stream.onBufferReleased", "cond", "uint64(nBytesReleased)", 0, 1},
 	{"release_crossesLow", "Stream.onBufferReleased", "cond", "s.onBufferedAmountLow", 0, 1},
+	// graceful shutdown (C08): the state gates and decisions the model Sd re-types (Props/C08: C08_sites_match_code)
+	{"sd_shutdownRefused", "Association.Shutdown", "cond", "state", 0, 1},
+	{"sd_writeRefused", "Association.sendPayloadData", "cond", "state", 0, 2},
+	{"sd_sackIgnored", "Association.handleSack", "cond", "state", 0, 1},
+	{"sd_shutdownInAckSent", "Association.handleShutdown", "cond", "state", 0, 5},
+	{"sd_shutdownInSent", "Association.handleShutdown", "cond", "state", 1, 5},
+	{"sd_shutdownNotHandled", "Association.handleShutdown", "cond", "state", 2, 5},
+	{"sd_shutdownAckHandled", "Association.handleShutdownAck", "cond", "state", 0, 1},
+	{"sd_shutdownCompleteHandled", "Association.handleShutdownComplete", "cond", "state", 0, 1},
+	{"sd_prioShutdownAck", "Association.gatherOutboundPriorityPackets", "cond", "a.willSendShutdown", 1, 3},
+	{"sd_prioShutdown", "Association.gatherOutboundPriorityPackets", "cond", "a.willSendShutdown", 2, 3},
+	{"sd_dataGap", "Association.handleData", "assign", "gapDetected", 0, 1},
+	{"sd_dataSackNow", "Association.handleData", "assign", "sackNow", 0, 2},
 }
 
 type leaf struct{ name, lty string }
